@@ -29,7 +29,9 @@ def gate_instances(n):
 
 
 LAYOUTS = ("QuantumCircuit(n)", "one named quantum register", "two quantum registers", "QuantumCircuit(n, n): with classical bits",
-           "two quantum registers + a classical register", "three quantum registers (sizes 1, n-2, 1) + classical register")
+           "two quantum registers + a classical register", "three quantum registers (sizes 1, n-2, 1) + classical register",
+           "output of the transpiler's ElidePermutations stage: carries a TranspileLayout; SWAPs are elided into a final qubit permutation")
+TRANSPILED = 6
 
 
 def build_circuit(n, gates, layout=0):
@@ -45,6 +47,14 @@ def build_circuit(n, gates, layout=0):
         qc = QuantumCircuit(n, n)
     elif layout == 4:
         qc = QuantumCircuit(QuantumRegister(n // 2, "a"), QuantumRegister(n - n // 2, "b"), ClassicalRegister(2, "c"))
+    elif layout == TRANSPILED:
+        # the transpiler stage that elides SWAPs into a final qubit permutation, run alone (the full preset pipeline also resynthesises single-qubit gates into `u`)
+        from qiskit.transpiler import PassManager
+        from qiskit.transpiler.passes import ElidePermutations
+        qc = QuantumCircuit(n)
+        for nm, q in gates:
+            getattr(qc, nm)(*q)
+        return PassManager([ElidePermutations()]).run(qc)
     else:
         regs = [QuantumRegister(1, "x"), QuantumRegister(n - 2, "y"), QuantumRegister(1, "z")] if n >= 3 else [QuantumRegister(1, "x"), QuantumRegister(1, "z")]
         qc = QuantumCircuit(*regs, ClassicalRegister(1, "c"))
@@ -72,6 +82,11 @@ def eval_circuit(job):
 
     qc = build_circuit(n, gates, layout)
     before = adapt.gates_of(qc)
+    if layout == TRANSPILED:
+        # the input IS the transpiler's output: the contract speaks about the gates that circuit contains (whatever the transpiler made of the gate list)
+        gates = [(nm, list(q)) for nm, q in before if nm not in P.IGNORED]
+        if any(nm not in GATESET for nm, _ in gates):
+            return []
     want = P.canon(n, P.state_generators(n, gates))
     # Q1 / C14: the Stabilizer object built from the circuit generates the signed group of circuit|0>
     try:
@@ -154,6 +169,17 @@ def circuit_jobs(ctx, small=False):
                 jobs.append((n, conn, [g for i, g in enumerate(base) for _ in range(3 if i == pick else 1)], 0))
                 jobs.append((n, conn, [g for i, g in enumerate(base) for _ in range(3 if i in two else 1)], 0))
                 jobs.append((n, conn, base + [("h", [0]), ("h", [0])], 0))
+    # transpiled inputs whose SWAPs form a permutation that is not its own inverse (3-cycles and longer): the transpiler elides them into layout.final_layout
+    for n, conn in [c for c in docs.ADVERTISED if c[0] >= 3 and c[1] in ("all", "linear")]:
+        for t in range(3 if ctx.quick else 12):
+            qs = list(range(n))
+            rnd.shuffle(qs)
+            gates = [("h", [qs[0]]), ("cx", [qs[0], qs[1]]), ("s", [qs[1]]), ("swap", [qs[0], qs[1]]), ("swap", [qs[1], qs[2]])]
+            if t % 3 == 1:
+                gates += [("h", [qs[2]]), ("cz", [qs[2], qs[0]])]
+            if t % 3 == 2 and n >= 4:
+                gates += [("swap", [qs[2], qs[3]]), ("sdg", [qs[3]])]
+            jobs.append((n, conn, gates, TRANSPILED))
     per = (2 if small else 8) if ctx.quick else (10 if small else 80)
     for n, conn in docs.ADVERTISED:
         gi = gate_instances(n)
